@@ -500,6 +500,21 @@ impl MqttState {
     /// Adds next packet identifier to QoS 1 and 2 publish packets and returns
     /// it buy wrapping publish in packet
     fn outgoing_publish(&mut self, mut publish: Publish) -> Result<Option<Packet>, StateError> {
+        // refuse before anything is recorded: a publish that is not going to be written must
+        // neither take a packet id nor a place in the inflight window
+        if let Some(props) = &publish.properties {
+            if let Some(alias) = props.topic_alias {
+                if alias > self.broker_topic_alias_max {
+                    // We MUST NOT send a Topic Alias that is greater than the
+                    // broker's Topic Alias Maximum.
+                    return Err(StateError::InvalidAlias {
+                        alias,
+                        max: self.broker_topic_alias_max,
+                    });
+                }
+            }
+        };
+
         if publish.qos != QoS::AtMostOnce {
             if publish.pkid == 0 {
                 publish.pkid = self.next_pkid();
@@ -536,19 +551,6 @@ impl MqttState {
         );
 
         let pkid = publish.pkid;
-
-        if let Some(props) = &publish.properties {
-            if let Some(alias) = props.topic_alias {
-                if alias > self.broker_topic_alias_max {
-                    // We MUST NOT send a Topic Alias that is greater than the
-                    // broker's Topic Alias Maximum.
-                    return Err(StateError::InvalidAlias {
-                        alias,
-                        max: self.broker_topic_alias_max,
-                    });
-                }
-            }
-        };
 
         let event = Event::Outgoing(Outgoing::Publish(pkid));
         self.events.push_back(event);
